@@ -73,7 +73,9 @@ theorem hist_const {s s' : Sys} (a : Act) (h : step s a = .ok s') {k : Nat} (hk 
   | abort i =>
     obtain ⟨_, _, rfl⟩ := abort_ok h
     dsimp only
-    split <;> exact ⟨rfl, rfl⟩
+    split
+    · rw [dropInfl_hists]; exact ⟨rfl, rfl⟩
+    · exact ⟨rfl, rfl⟩
   | begin c t => obtain ⟨_, _, rfl⟩ := begin_ok h; exact ⟨rfl, rfl⟩
   | store ws => obtain ⟨f, ws', _, _, rfl⟩ := store_ok h; exact ⟨rfl, rfl⟩
   | vote => obtain ⟨f, _, _, rfl⟩ := vote_ok h; exact ⟨rfl, rfl⟩
@@ -124,7 +126,9 @@ theorem hist_const_steps {s s' : Sys} {as : List Act} (h : Steps s as s') {k : N
       | abort i =>
         obtain ⟨_, _, rfl⟩ := abort_ok hs
         dsimp only
-        split <;> exact hk
+        split
+        · rw [dropInfl_nh]; exact hk
+        · exact hk
       | begin c t => obtain ⟨_, _, rfl⟩ := begin_ok hs; exact hk
       | store ws => obtain ⟨f, ws', _, _, rfl⟩ := store_ok hs; exact hk
       | vote => obtain ⟨f, _, _, rfl⟩ := vote_ok hs; exact hk
